@@ -42,7 +42,11 @@ func usesControlOpsAsCommands(p *Prog) bool {
 }
 
 func buildRefineRecord(rc *RefCase) map[string]interface{} {
-	flat := Flatten(rc.Prog)
+	prog, sdata, derr := withDataTokens(rc.Prog)
+	if derr != nil {
+		panic("inline data of case " + rc.ID + ": " + derr.Error())
+	}
+	flat := Flatten(prog)
 	pa := ParseAsm(rc.Out)
 	scriptNames := map[string]bool{}
 	userLabels := map[string]bool{}
@@ -83,7 +87,7 @@ func buildRefineRecord(rc *RefCase) map[string]interface{} {
 	copy(asm, pa.Lines)
 	return map[string]interface{}{
 		"id": rc.ID, "N": flat.N, "E": flat.E, "ulab": flat.ULab, "sroot": flat.SRoot,
-		"asm": asm, "lab": lab, "entries": entries,
+		"asm": asm, "lab": lab, "entries": entries, "sdata": sdata, "vdefs": targetDefs(pa),
 	}
 }
 
